@@ -14,7 +14,7 @@ import itertools
 from typing import Any, Dict, List
 
 PROPERTY = "C20"
-UNARY = ["gelu", "silu", "softmax", "layer_norm", "rms_norm", "dropout0", "linear"]
+UNARY = ["gelu", "silu", "softmax", "layer_norm", "rms_norm", "dropout0", "linear", "hand_scaled"]
 SPINE = ["linear", "gelu", "layer_norm", "softmax", "silu", "rms_norm"]
 MODULES = ["GELU", "SiLU", "Softmax", "Linear", "LinearReadout", "Conv1d", "LayerNorm", "RMSNorm", "Embedding",
            "CrossEntropyLoss", "MLP", "MHSA1", "MHSA2", "MHSA4c", "TransformerLayer", "TransformerDecoder", "DepthSequential"]
@@ -101,6 +101,7 @@ def _unary(name: str, d: int, dtype: Any) -> Any:
         "rms_norm": lambda x: U.rms_norm(x, (d,)),
         "dropout0": lambda x: U.dropout(x, p=0.0),
         "linear": lambda x: U.linear(x, W, None, constraint=None),
+        "hand_scaled": lambda x: U.scale_fwd(U.scale_bwd(x, 0.5) * 2.0, 0.25),
     }[name]
 
 
@@ -300,4 +301,21 @@ def run_case(case: Dict[str, Any]) -> Dict[str, Any]:
             viol.append({"key": ident.replace(be_name, "fx") + "|fx_forward_differs", "msg": f"{case['ops']}"})
     except Exception:  # noqa
         pass
-    return {"violations": viol, "steps": 3, "nontrivial": graphs[0] > 0, "outcome": f"{be_name}:comp"}
+    # the library's leaf-wrapping tracer (analyse_module) reproduces the gradients
+    try:
+        import unit_scaling.utils as uutils
+
+        class Wrap2(torch.nn.Module):
+            def forward(self, x: Any) -> Any:
+                return eager(x)
+
+        xg = x0.clone().requires_grad_(True)
+        g = torch.Generator().manual_seed(17)
+        up = torch.randn(ye.shape, generator=g, dtype=torch.float64).to(ye.dtype)
+        torch.manual_seed(3)
+        uutils.analyse_module(Wrap2(), (xg,), up, syntax_highlight=False)
+        if xg.grad is None or not _close(xg.grad, ge[0], tol, floor=3.0):
+            viol.append({"key": ident.replace(be_name, "leaf_tracer") + "|leaf_tracer_gradient_differs", "msg": f"{case['ops']}"})
+    except Exception as e:  # noqa
+        viol.append(exception_violation(e, ident.replace(be_name, "leaf_tracer")))
+    return {"violations": viol, "steps": 4, "nontrivial": graphs[0] > 0, "outcome": f"{be_name}:comp"}
